@@ -1,5 +1,5 @@
 //! Kani harness for src/cache/unique_id/increasing_id_generator.rs - C05/C10 (ids are never reused).
-#![allow(dead_code, unused_imports)]
+#![allow(dead_code, unused_imports, static_mut_refs)]
 use std::sync::atomic::AtomicU64;
 
 use super::IncreasingIdGenerator;
@@ -14,4 +14,48 @@ fn ids_strictly_increase() {
     assert!(a == start && b == start + 1 && a < b);
     let fresh = IncreasingIdGenerator::new();
     assert!(fresh.next() == 1);
+}
+
+// ---- `next` is called by client threads (CacheD::key_description), so two calls can overlap. Instrumentation X2c puts an
+// interference point before the first and after every top-level statement of `next`; at ONE of them (chosen by Kani) another
+// thread's complete call of `next` lands. BOUNDED: one interfering call; every atomic operation is one step.
+static mut INTERFERE_AT: usize = usize::MAX;
+static mut IN_OTHER: bool = false;
+static mut OTHER_RAN: bool = false;
+static mut OTHER_ID: u64 = 0;
+
+pub(crate) fn next_point(generator: &IncreasingIdGenerator, k: usize) {
+    unsafe {
+        if IN_OTHER || OTHER_RAN || k != INTERFERE_AT {
+            return;
+        }
+        IN_OTHER = true;
+        OTHER_ID = generator.next();
+        IN_OTHER = false;
+        OTHER_RAN = true;
+    }
+}
+
+#[kani::proof]
+fn overlapping_calls_get_distinct_ids() {
+    let start: u64 = kani::any();
+    kani::assume(start < u64::MAX - 3);
+    let g = IncreasingIdGenerator { id: AtomicU64::new(start) };
+    let at: usize = kani::any();
+    unsafe { INTERFERE_AT = at; }
+    let mine = g.next();
+    let (other_ran, other) = unsafe { (OTHER_RAN, OTHER_ID) };
+    if at == 0 {
+        assert!(other_ran);          // the point before the first statement always exists (not vacuous)
+    }
+    if other_ran {
+        assert!(mine != other);      // two keys never share an id
+        assert!(mine >= start && other >= start);
+    }
+    unsafe { INTERFERE_AT = usize::MAX; }
+    let later = g.next();
+    assert!(later > mine);
+    if other_ran {
+        assert!(later > other);      // and no later key gets either of them again
+    }
 }
